@@ -80,6 +80,9 @@ func (c *Config) Merge(from interface{}, options ...Option) error {
 	if err != nil {
 		return err
 	}
+	if c.fields == nil { // zero value Config
+		c.fields = &fields{}
+	}
 	return mergeConfig(opts, c, other)
 }
 
